@@ -13,7 +13,7 @@ from vlib.kernel import KernelBuild, located_rules
 from . import _common
 
 ID = "K57"
-SERVES = ["C10", "C01", "C04", "C13"]
+SERVES = ["C10", "C01", "C03", "C04", "C13"]
 TITLE = "setTokenValueCast: width and signedness used for the value of a cast, plain char by the platform's default"
 
 PRELUDE = r'''
@@ -60,6 +60,17 @@ void h_ternary_value(void) {
     ternary_value(has_vt, integral, ptr, isint, imp);
     if (has_vt && integral && ptr == 0 && isint && !imp) __CPROVER_assert(g_tern == 2, "a known / possible integer value reaches a conditional operator of integer type converted to that type");
     else __CPROVER_assert(g_tern == 1, "every other value is handed on");
+}
+/* c ? a : b with a known condition: the condition is what its known INTEGER (or token) value says - not its first value,
+   which may be a symbolic one ("c equals another expression", intvalue 0) */
+void h_ternary_cond(void) {
+    struct CondVal ki, kt; _Bool has_ki = nondet_bool(), has_kt = nondet_bool();
+    ki.is_tok = 0; ki.is_int = 1; ki.intvalue = nondet_bigint(); kt.is_tok = 1; kt.is_int = 0; kt.intvalue = nondet_bigint();
+    _Bool known = 0, cond = 0;
+    ternary_cond(has_ki ? &ki : NULL, has_kt ? &kt : NULL, &known, &cond);
+    __CPROVER_assert(known == (has_ki || has_kt), "the condition is known exactly if it has a known integer or token value");
+    if (has_ki) __CPROVER_assert(cond == (ki.intvalue != 0), "a known integer value selects the operand by being non-zero");
+    else if (has_kt) __CPROVER_assert(cond, "a known token value (an address) is true");
 }
 void h_cover(void) {
     struct Platform pl; pl.char_bit = 8; pl.short_bit = 16; pl.int_bit = 32; pl.long_bit = 64; pl.long_long_bit = 64;
@@ -146,15 +157,37 @@ def build(ctx):
     ], ID + ".ternary"); n += k
     if re.search(r'ternary->|value\.|settings|std::|\bvt\b', extract.mask(tt)):
         raise extract.ExtractError("K57: setTernaryValue not fully lowered: %r" % re.findall(r'[^\n]*(?:ternary->|value\.|settings|std::|\bvt\b)[^\n]*', extract.mask(tt))[:3])
+    # which operand of a conditional operator is selected by a known condition
+    fsv = extract.locate_function("lib/vf_settokenvalue.cpp", r'^\s*void\s+setTokenValue\s*\(\s*Token\s*\*\s*tok\s*,')
+    msv = extract.mask(fsv.text)
+    cs = list(re.finditer(r'const Value\*\s*condKnown = parent->astOperand1\(\)->getKnownValue\(Value::ValueType::INT\)\s*;', msv))
+    ce = re.compile(r'const bool cond\([^;]*\)\s*;').search(msv, cs[0].end()) if len(cs) == 1 else None
+    if len(cs) != 1 or not ce:
+        raise extract.ExtractError("setTokenValue: the selection of the condition's known value for a conditional operator not found")
+    regk = extract.Located("lib/vf_settokenvalue.cpp", fsv.text[cs[0].start():ce.end()], fsv.start + cs[0].start(), fsv.start + ce.end(), extract.read("lib/vf_settokenvalue.cpp"))
+    kb.add_located("ValueFlow::setTokenValue [known condition of a conditional operator]", regk, "region")
+    tk, k = located_rules(regk, _common.VT_RULES + [
+        (r'const Value\*\s*condKnown = parent->astOperand1\(\)->getKnownValue\(Value::ValueType::INT\)\s*;', 'const struct CondVal *condKnown = known_int;', 1, 1),
+        (r'condKnown = parent->astOperand1\(\)->getKnownValue\(Value::ValueType::TOK\)\s*;', 'condKnown = known_tok;', 1, 1),
+        (r'const Value\s*&\s*condvalue = \*condKnown\s*;', 'const struct CondVal condvalue = *condKnown;', 1, 1),
+        (r'\bcondvalue\.isTokValue\(\)', 'condvalue.is_tok', 1, 1),
+        (r'\bcondvalue\.isIntValue\(\)', 'condvalue.is_int', 1, 1),
+        (r'const bool cond\(([^;]*)\)\s*;', r'const _Bool cond = (\1); *cond_out = cond; *known_out = 1;', 1, 1),
+    ], ID + ".condknown"); n += k
+    if re.search(r'parent|Value::|\bValue\b', extract.mask(tk)):
+        raise extract.ExtractError("K57: the condition selection was not fully lowered: %r" % tk[:300])
+    cond_fn = ("struct CondVal { _Bool is_tok, is_int; bigint intvalue; };\n"
+               "static void ternary_cond(const struct CondVal *known_int, const struct CondVal *known_tok, _Bool *known_out, _Bool *cond_out)\n{\n    *known_out = 0; *cond_out = 0;\n%s\n}\n}\n" % extract.strip_comments(tk))
     whole = extract.strip_comments(extract.locate_function("lib/vf_settokenvalue.cpp", r'^\s*void\s+setTokenValue\s*\(\s*Token\s*\*\s*tok\s*,').text)
     if len(re.findall(r'\bsetTernaryValue\(parent,', whole)) != 3:
         raise extract.ExtractError("setTokenValue: the three places that hand a value to a conditional operator no longer all call setTernaryValue")
     kb.rules_fired = n
-    text = _common.BASE + enums + pstruct + PRELUDE + extract.strip_comments(t) + "\n" + "int g_tern;   /* 1: handed on unchanged, 2: converted to the operator's type (setTokenValueCast) */\n" + extract.strip_comments(tt) + "\n"
+    text = _common.BASE + enums + pstruct + PRELUDE + extract.strip_comments(t) + "\n" + "int g_tern;   /* 1: handed on unchanged, 2: converted to the operator's type (setTokenValueCast) */\n" + extract.strip_comments(tt) + "\n" + cond_fn + "\n"
     extract.residue_scan(text, ID)
     kb.ctext = text + HARNESS
     kb.job("dispatch", "h_dispatch", replay="char", note="loop-free function; every integer target type and signedness, long 32/64, every default sign")
     kb.job("ternary", "h_ternary_value", note="loop-free function; the three call sites in setTokenValue are pinned by text")
+    kb.job("ternary.cond", "h_ternary_cond", note="loop-free region: which known value of the condition selects the operand")
     kb.job("bool", "h_bool", replay="bool", note="loop-free function; every integer and every (non-NaN) floating point value")
     kb.job("cover", "h_cover", kind="cover")
     kb.assumptions += ["castValue is a record of (sign, bits) here (its arithmetic is K04's contract); setTokenValue is `hand on`; the unknown-type tail of the function is an oracle",
